@@ -52,7 +52,7 @@ def EOS : Nat := 256
 /-- symbols ordered by (code length, symbol value): the order in which a canonical code hands
     out code words -/
 def canonicalOrder (lens : List Nat) : List Nat :=
-  (List.range 31).flatMap fun l => (List.range lens.length).filter fun s => lens.getD s 0 == l
+  (List.range 31).flatMap fun l => (lens.zipIdx.filter fun p => p.1 == l).map (·.2)
 
 /-- (symbol, length, code word as a number) in canonical order -/
 def assign (lens : List Nat) : List Nat → Nat → Nat → List (Nat × Nat × Nat)
